@@ -27,10 +27,10 @@ import (
 const baseNominal = 946684800 * int64(time.Second) // 2000-01-01T00:00:00Z, start of virtual time
 
 var preEpoch = []int64{
-	-1 * int64(time.Second),                   // 1969-12-31T23:59:59Z            (Seconds=-1, Nanos=0)
-	-1500 * int64(time.Millisecond),           // 1969-12-31T23:59:58.5Z          (Seconds=-2, Nanos=5e8)
-	-1,                                        // one nanosecond before the epoch (Seconds=-1, Nanos=999999999)
-	-315619200 * int64(time.Second),           // 1960-01-01T00:00:00Z
+	-1 * int64(time.Second),         // 1969-12-31T23:59:59Z            (Seconds=-1, Nanos=0)
+	-1500 * int64(time.Millisecond), // 1969-12-31T23:59:58.5Z          (Seconds=-2, Nanos=5e8)
+	-1,                              // one nanosecond before the epoch (Seconds=-1, Nanos=999999999)
+	-315619200 * int64(time.Second), // 1960-01-01T00:00:00Z
 	-2208988800*int64(time.Second) + 123456789, // 1900-01-01T00:00:00.123456789Z
 }
 
